@@ -34,7 +34,7 @@ pub fn plan(p: &EpParams) -> Plan {
     Plan {
         episodes: n,
         exhaustive: false,
-        rule: "4-8 concurrent clients x 5-14 operations over a pool of 2 topic names and 3 subscription names in 2 projects: CreateTopic / DeleteTopic / GetTopic / ListTopics / ListTopicSubscriptions / Publish / CreateSubscription (a different ack deadline per incarnation; sometimes across projects or on a missing topic) / GetSubscription / ListSubscriptions / DeleteSubscription / Pull / Acknowledge / ModifyAckDeadline, seeded yields before every operation and at the server's schedule points; in half of the episodes 2-4 extra clients released together by a barrier issue the same create/delete on the same name for 2-5 rounds. Per-name WGL linearizability search with the two-point Delete of DESIGN 4/C10. Non-trivial: >=2 operations on one name overlapped. Distinct: per-name history shape (operation kinds, outcomes, overlap structure).".into(),
+        rule: "4-8 concurrent clients x 5-14 operations over a pool of 2 topic names and 3 subscription names in 2 projects: CreateTopic / DeleteTopic / GetTopic / ListTopics / ListTopicSubscriptions / Publish / CreateSubscription (a different ack deadline per incarnation; sometimes across projects or on a missing topic) / GetSubscription / ListSubscriptions / DeleteSubscription / Pull / Acknowledge / ModifyAckDeadline, seeded yields before every operation and at the server's schedule points; in half of the episodes 2-4 extra clients released together by a barrier issue the same create/delete on the same name for 2-5 rounds; half of the listings are paged walks (page size 1) whose token is used some calls later, when others may have deleted what it points past. Per-name WGL linearizability search with the two-point Delete of DESIGN 4/C10, followed at quiescence by a sequential sweep of every name (get, publish/pull, list, delete, get: all present-and-usable or all NOT_FOUND, and gone after the delete). Non-trivial: >=2 operations on one name overlapped. Distinct: per-name history shape (operation kinds, outcomes, overlap structure).".into(),
     }
 }
 
@@ -77,6 +77,8 @@ async fn episode(p: &EpParams, mt: bool) -> EpReport {
         let focus_s = r.pick(&subs).clone();
         tasks.push(tokio::spawn(async move {
             let n = if racers_on { r.range(4, 9) } else { r.range(5, 14) };
+            // the page token of this client's last paged listing (it goes stale as others delete)
+            let mut kept: Option<(u8, String, String)> = None;
             for _ in 0..n {
                 jitter_small(&mut r, mt).await;
                 let t = if r.chance(2, 3) { focus_t.clone() } else { r.pick(&topics).clone() };
@@ -96,7 +98,38 @@ async fn episode(p: &EpParams, mt: bool) -> EpReport {
                         let _ = cx.list_topics(pr, 0, "").await;
                     }
                     6 => {
-                        let _ = cx.list_topic_subs(&t, 0, "").await;
+                        // half of the listings are paged walks, one page per call: the token is used
+                        // some calls later, when the listing may have shrunk below its offset
+                        if r.chance(1, 2) {
+                            let _ = cx.list_topic_subs(&t, 0, "").await;
+                        } else {
+                            match kept.take() {
+                                Some((0, scope, tok)) => {
+                                    if let Ok((_, next)) = cx.list_topic_subs(&scope, 1, &tok).await {
+                                        kept = Some((0, scope, next)).filter(|k| !k.2.is_empty());
+                                    }
+                                }
+                                Some((1, scope, tok)) => {
+                                    if let Ok((_, next)) = cx.list_subs(&scope, 1, &tok).await {
+                                        kept = Some((1, scope, next)).filter(|k| !k.2.is_empty());
+                                    }
+                                }
+                                Some((_, scope, tok)) => {
+                                    if let Ok((_, next)) = cx.list_topics(&scope, 1, &tok).await {
+                                        kept = Some((2, scope, next)).filter(|k| !k.2.is_empty());
+                                    }
+                                }
+                                None => {
+                                    let pr = if t.starts_with("projects/p1/") { "projects/p1" } else { "projects/p2" };
+                                    kept = match r.below(3) {
+                                        0 => cx.list_topic_subs(&t, 1, "").await.ok().map(|(_, next)| (0, t.clone(), next)),
+                                        1 => cx.list_subs(pr, 1, "").await.ok().map(|(_, next)| (1, pr.to_string(), next)),
+                                        _ => cx.list_topics(pr, 1, "").await.ok().map(|(_, next)| (2, pr.to_string(), next)),
+                                    }
+                                    .filter(|k| !k.2.is_empty());
+                                }
+                            }
+                        }
                     }
                     7 => {
                         let _ = cx.publish(&t, &[Msg::tagged(&format!("x{}", r.below(1_000_000)))]).await;
@@ -197,6 +230,33 @@ async fn episode(p: &EpParams, mt: bool) -> EpReport {
     let _ = c0.list_topics("projects/p1", 0, "").await;
     let _ = c0.list_subs("projects/p1", 0, "").await;
     let h = w.history();
+    // ... and a name that is present can be used and removed, one that is absent cannot: with
+    // nothing else going on, get / publish / delete of one topic (get / pull / delete of one
+    // subscription) all see the same map entry
+    for s in &subs {
+        let got = c0.get_sub(s).await.map(|_| ()).map_err(|e| e.code() as i32);
+        let pulled = c0.pull(s, 1, true).await.map(|_| ()).map_err(|e| e.code() as i32);
+        let deleted = c0.delete_sub(s).await.map_err(|e| e.code() as i32);
+        let after = c0.get_sub(s).await.map(|_| ()).map_err(|e| e.code() as i32);
+        let fine = (got == Ok(()) && pulled == Ok(()) && deleted == Ok(()) || got == Err(NOT_FOUND) && pulled == Err(NOT_FOUND) && deleted == Err(NOT_FOUND)) && after == Err(NOT_FOUND);
+        if !fine {
+            rep.viol("C10", "C10:quiescent-name-inconsistent:subscription", format!("at quiescence, one after the other: GetSubscription({0}) -> {1:?}, Pull({0}) -> {2:?}, DeleteSubscription({0}) -> {3:?}, GetSubscription({0}) -> {4:?}", short(s), got, pulled, deleted, after));
+        }
+        rep.inc("names_swept_at_quiescence");
+    }
+    for t in &topics {
+        let got = c0.get_topic(t).await.map(|_| ()).map_err(|e| e.code() as i32);
+        let published = c0.publish(t, &[Msg::tagged("sweep")]).await.map(|_| ()).map_err(|e| e.code() as i32);
+        let listed = c0.list_topic_subs(t, 0, "").await.map(|_| ()).map_err(|e| e.code() as i32);
+        let deleted = c0.delete_topic(t).await.map_err(|e| e.code() as i32);
+        let after = c0.get_topic(t).await.map(|_| ()).map_err(|e| e.code() as i32);
+        let all_ok = got == Ok(()) && published == Ok(()) && listed == Ok(()) && deleted == Ok(());
+        let all_absent = got == Err(NOT_FOUND) && published == Err(NOT_FOUND) && listed == Err(NOT_FOUND) && deleted == Err(NOT_FOUND);
+        if !((all_ok || all_absent) && after == Err(NOT_FOUND)) {
+            rep.viol("C10", "C10:quiescent-name-inconsistent:topic", format!("at quiescence, one after the other: GetTopic({0}) -> {1:?}, Publish({0}) -> {2:?}, ListTopicSubscriptions({0}) -> {3:?}, DeleteTopic({0}) -> {4:?}, GetTopic({0}) -> {5:?}", short(t), got, published, listed, deleted, after));
+        }
+        rep.inc("names_swept_at_quiescence");
+    }
     let st = wgl::check(&h, &mut rep, &topics, &subs);
     for o in h.ops.values() {
         match &o.ret {
